@@ -20,9 +20,11 @@ type wop struct {
 	kind string // insert update uoi delete get scan
 	x    kv     // insert / new item
 	k    int    // old key, key, pivot
-	w    int    // scan: index into wscanNames
-	f    filt
-	n    int
+	oldp int    // update / uoi: the payload the old argument carries (0 unless stated); with k == x.k and oldp == x.p
+	// the old and the new argument are one and the same value (the upsert idiom UpdateOrInsert(x, x))
+	w int // scan: index into wscanNames
+	f filt
+	n int
 }
 
 func (o wop) coq() string {
@@ -46,10 +48,15 @@ func (o wop) String() string {
 	switch o.kind {
 	case "insert":
 		return fmt.Sprintf("Insert(%d:%d)", o.x.k, o.x.p)
-	case "update":
-		return fmt.Sprintf("Update(%d -> %d:%d)", o.k, o.x.k, o.x.p)
-	case "uoi":
-		return fmt.Sprintf("UpdateOrInsert(%d -> %d:%d)", o.k, o.x.k, o.x.p)
+	case "update", "uoi":
+		name := map[string]string{"update": "Update", "uoi": "UpdateOrInsert"}[o.kind]
+		switch {
+		case o.k == o.x.k && o.oldp == o.x.p:
+			return fmt.Sprintf("%s(x, x) with x = %d:%d, one value as both arguments", name, o.x.k, o.x.p)
+		case o.oldp != 0:
+			return fmt.Sprintf("%s(old %d:%d -> new %d:%d)", name, o.k, o.oldp, o.x.k, o.x.p)
+		}
+		return fmt.Sprintf("%s(%d -> %d:%d)", name, o.k, o.x.k, o.x.p)
 	case "delete":
 		return fmt.Sprintf("Delete(%d)", o.k)
 	case "get":
@@ -71,9 +78,9 @@ func applyW(t *tree.BTree, o wop) (res obs) {
 		t.Insert(o.x)
 		return obs{kind: "unit"}
 	case "update":
-		return obs{kind: "bool", b: t.Update(kv{o.k, 0}, o.x)}
+		return obs{kind: "bool", b: t.Update(kv{o.k, o.oldp}, o.x)}
 	case "uoi":
-		return obs{kind: "bool", b: t.UpdateOrInsert(kv{o.k, 0}, o.x)}
+		return obs{kind: "bool", b: t.UpdateOrInsert(kv{o.k, o.oldp}, o.x)}
 	case "delete":
 		return obs{kind: "bool", b: t.Delete(kv{o.k, 0})}
 	case "get":
@@ -293,7 +300,6 @@ func pickLimit(r *rand.Rand, size int) int {
 	}
 }
 
-
 // levels of the tree (0 = empty, 1 = a leaf root)
 func levels(t *btree.BTree) int {
 	root, _, _ := t.VerifShape()
@@ -404,6 +410,80 @@ func genWrapper(r *rand.Rand, variant string) vh.Case {
 		}
 	}
 	switch variant {
+	case "alias":
+		// Update / UpdateOrInsert with ONE value as both arguments (UpdateOrInsert(x, x), the upsert idiom) for a key that
+		// is absent, present with another payload, present with this very item (x fetched with Get); and with an old
+		// argument that is the stored item while the new one is a fresh item of the same key; scans and Gets in between
+		nb := 4 + r.Intn(10)
+		for i := 0; i < nb; i++ {
+			do(write(true), false)
+		}
+		absent := func() int {
+			for i := 0; i < 20; i++ {
+				if k := anyKey(r, u); !ks.m[k] {
+					return k
+				}
+			}
+			for k := 2*r.Intn(u) + 1; ; k += 2 {
+				if !ks.m[k] {
+					return k
+				}
+			}
+		}
+		stored := func() (kv, bool) {
+			k, ok := ks.present(r)
+			if !ok {
+				return kv{}, false
+			}
+			do(wop{kind: "get", k: k}, false)
+			x, ok := t.Get(kv{k, 0}).(kv)
+			return x, ok
+		}
+		nops := 25 + r.Intn(40)
+		for i := 0; i < nops; i++ {
+			kind := []string{"update", "uoi"}[r.Intn(2)]
+			switch x := r.Float64(); {
+			case x < 0.45:
+				var it kv
+				switch r.Intn(3) {
+				case 0:
+					it = kv{absent(), ks.pay()}
+				case 1:
+					if k, ok := ks.present(r); ok {
+						it = kv{k, ks.pay()}
+					} else {
+						it = kv{absent(), ks.pay()}
+					}
+				default:
+					var ok bool
+					if it, ok = stored(); !ok {
+						it = kv{absent(), ks.pay()}
+					}
+				}
+				do(wop{kind: kind, k: it.k, oldp: it.p, x: it}, r.Intn(3) == 0)
+				switch r.Intn(3) {
+				case 0:
+					do(wop{kind: "get", k: it.k}, false)
+				case 1:
+					do(wop{kind: "scan", w: r.Intn(4), k: []int{-1, 2*u + 1}[r.Intn(2)], f: filt{kind: "all"}, n: 1000}, false)
+				}
+			case x < 0.57:
+				if old, ok := stored(); ok {
+					nk := old.k
+					if r.Intn(3) == 0 {
+						nk = anyKey(r, u)
+					}
+					do(wop{kind: kind, k: old.k, oldp: old.p, x: kv{nk, ks.pay()}}, false)
+				}
+			case x < 0.70:
+				do(write(r.Intn(2) == 0), false)
+			case x < 0.78:
+				do(wop{kind: "get", k: pickKey(r, ks, u, 0.6)}, false)
+			default:
+				do(scan(), i == nops-1)
+			}
+		}
+		do(wop{kind: "scan", w: 0, k: -1, f: filt{kind: "all"}, n: 1000}, true)
 	case "limits":
 		// a tree of at least three levels; then, for each of the four scans and a pivot of every class, EVERY limit
 		// 0..len+1 (the n-th match may sit anywhere relative to the node boundaries)
@@ -908,7 +988,6 @@ func genConc(r *rand.Rand, g int, stress bool) vh.Case {
 		Desc: map[string]interface{}{"kind": "concurrent callers of one wrapper", "callers": g, "histories": desc,
 			"final": fmt.Sprintf("%s len=%d", strShape(root), length)}}
 }
-
 
 // Clone() taken exactly when the root holds 2*degree-1 items (as a leaf root or as an inner root), then a write on the
 // original or on the clone (the next ReplaceOrInsert splits that root), then snapshots of every handle
